@@ -457,6 +457,7 @@ fn gen_conf(g: &mut G, kinds: &[&str]) {
     let src0 = g.data_src(0);
     let iv0 = g.iv_for(kind, 0);
     match kind {
+        "cfbbuf" if g.rng.chance(1, 3) => return gen_byte_edges(g),
         "cfbbuf" => {
             g.new_obj("a", f, kind, dir, 0, iv0.clone(), src0.clone(), "inner");
             let n = g.nbytes(bs, 5);
@@ -700,7 +701,39 @@ fn gen_c07(g: &mut G) {
 }
 
 /// C08: byte-level objects fed the same bytes in different pieces; one-shot prefix preservation
+/// byte-level objects (buffered CFB, the stream ciphers) at the arithmetic edges of a call: a head that leaves the
+/// cursor anywhere inside a block, then ONE call whose length sits within a block of a multiple of 1, 2, 4, 8, 16 or 32
+/// blocks, then a short tail; a second object takes the same bytes in one call, a third byte by byte near the edges
+fn gen_byte_edges(g: &mut G) {
+    let kind: &str = if g.rng.chance(2, 3) { "cfbbuf" } else { g.stream_kind() };
+    let f = g.pick_fac(kind);
+    let bs = g.bs(f);
+    let dir = if kind == "cfbbuf" { if g.idx % 2 == 0 { "dec" } else { "enc" } } else { "ks" };
+    let iv = g.iv_for(kind, 0);
+    let head = g.rng.below(bs.max(2));
+    let mult = *g.rng.pick(&[1usize, 2, 3, 4, 7, 8, 9, 15, 16, 17, 32]);
+    let d = g.rng.below(2 * bs.max(2) - 1) as i64 - (bs.max(2) as i64 - 1);
+    let big = ((mult * bs) as i64 + d).max(1) as usize;
+    let tail = g.rng.range(1, bs + 1);
+    let total = head + big + tail;
+    let b2b = kind != "cfbbuf" && g.rng.coin();
+    for (o, pieces) in [("a", vec![head, big, tail]), ("b", vec![total]), ("c", vec![head + big - 1, 1, 1, tail - 1])] {
+        g.new_obj(o, f, kind, dir, 0, iv.clone(), json!({"rand":0}), "inner");
+        for n in pieces {
+            if n > 0 {
+                g.bytes(o, n, b2b);
+            }
+        }
+        if kind == "cfbbuf" {
+            g.op("export", o);
+        }
+    }
+}
+
 fn gen_c08(g: &mut G) {
+    if g.rng.chance(1, 8) {
+        return gen_byte_edges(g);
+    }
     if g.rng.chance(1, 4) {
         let kind = *g.rng.pick(&["cfb", "cfb8"]);
         let f = g.pick_fac(kind);
@@ -1077,12 +1110,28 @@ fn gen_c12(g: &mut G) {
 }
 
 /// C13: contract violations are rejected without side effects; nothing panics
+/// ... and everybody else's territory: panics are judged by C13 only, so whatever the other properties drive (every
+/// front-end, batching, byte cuts, exports and imports, clones, long calls) is driven here as well
+fn gen_c13_foreign(g: &mut G) {
+    match (g.idx / 3) % 9 {
+        0 => gen_c10(g),
+        1 | 2 => gen_byte_edges(g),
+        3 => gen_c08(g),
+        4 => gen_c07(g),
+        5 => gen_c09(g),
+        6 => gen_c16(g),
+        7 => gen_c01(g),
+        _ => gen_conf(g, &["cbc", "pcbc", "ige", "cfb", "cfb8", "ofbblk", "cfbbuf", "ofb", "ofbcore"]),
+    }
+}
+
 fn gen_c13(g: &mut G) {
-    match g.rng.below(13) {
+    match g.rng.below(17) {
+        13..=16 => return gen_c13_foreign(g),
         // the keystream generators' own territory (boundary IVs, far positions, cores and wrappers, seeks inside the
         // keystream): nothing there violates a contract, so nothing may panic (debug-build overflow checks included)
         10 | 11 => return gen_ctr(g, g.idx % 5 == 0),
-        12 => return gen_c10(g),
+        12 => return gen_c13_foreign(g),
         0 | 1 => {
             // ciphertext stealing: short messages rejected, everything else accepted
             let kind = *g.rng.pick(&CTS_KINDS);
@@ -1274,6 +1323,25 @@ fn gen_c13(g: &mut G) {
 /// C14: interchangeable front-ends
 fn gen_c14(g: &mut G) {
     match g.idx % 8 {
+        0 if (g.idx / 8) % 3 == 2 => {
+            // CFB-8: byte by byte vs many bytes per call vs the one-shot form
+            let f = g.pick_fac("cfb8");
+            let w = g.w(f);
+            let dir = if g.rng.coin() { "enc" } else { "dec" };
+            let iv = g.iv_for("cfb8", 0);
+            let n = (g.nblocks(w, 6) * 2).max(2) + g.rng.below(3);
+            for o in ["one", "byte", "many"] {
+                g.new_obj(o, f, "cfb8", dir, 0, iv.clone(), json!({"rand":0}), "inner");
+            }
+            let b = g.rng.coin();
+            g.oneshot("one", "async", n, b);
+            for _ in 0..n {
+                g.blocks("byte", 1, false, false);
+            }
+            g.sched_blocks("many", n, w, None, true);
+            g.op("export", "byte");
+            g.op("export", "many");
+        }
         0 => {
             // buffered vs block-level vs one-shot CFB
             let f = g.pick_fac("cfb");
